@@ -9,6 +9,11 @@ SEQS = ["CASSF", "CASTF", "CAF", "CASSF", "CASSLF", "AASSF"]
 SEQS2 = ["CASF", "CASSF", "W"]
 
 
+def _lev_double(a, b):
+    from mc.refmodel import ref_lev
+    return 2 * ref_lev(a, b)
+
+
 def _lev_half(a, b):
     from rapidfuzz.distance.Levenshtein import distance
     return distance(a, b) / 2
@@ -174,6 +179,9 @@ def ops():
     lazy("fixture-WeightedLevenshtein-cdist", lambda: (fixtures()["wlev_123"].calc_cdist_matrix, (list(SEQS), list(SEQS2)), {}))
     lazy("fixture-SymdelDB-lookup", lambda: (fixtures()["symdeldb"].lookup, (list(SEQS2),), {}))
     lazy("fixture-SymdelDB-lookup-hamming", lambda: (fixtures()["symdeldb"].lookup, (list(SEQS),), {"custom_distance": "hamming"}))
+    # one index object asked with a distance function and a tight / an unlimited radius, then (in the histories) asked plainly again
+    lazy("fixture-SymdelDB-lookup-custom-tight", lambda: (fixtures()["symdeldb"].lookup, (list(SEQS2),), {"custom_distance": _lev_half, "max_custom_distance": 0.5}))
+    lazy("fixture-SymdelDB-lookup-custom-wide", lambda: (fixtures()["symdeldb"].lookup, (list(SEQS2),), {"custom_distance": _lev_double}))
     lazy("fixture-LookupDB-lookup-k2", lambda: (fixtures()["lookupdb"].lookup, (list(SEQS2),), {"max_edits": 2}))
     lazy("fixture-LookupDB-lookup-k1-custom", lambda: (fixtures()["lookupdb"].lookup, (list(SEQS2),), {"max_edits": 1, "custom_distance": _lev_half}))
     lazy("new-Cdr3Levenshtein-default-cdist", lambda: (__import__("pyrepseq").metric.tcr_metric.Cdr3Levenshtein().calc_cdist_matrix, (_df(), _df()), {}))
